@@ -41,7 +41,7 @@ def sizes(tier):
             router_procs=1, router_reps=8, router_shards=2,
             worlds=[0, 3],
             merkle=dict(NK=2, MaxOp=2), merkle_extra=24, merkle_shards=2,
-            ns_mc=dict(MaxClients=2, STARTS={8, 98}, MaxClock=4), ns_scheds=10, ns_depth=12, ns_shards=4)
+            ns_mc=dict(MaxClients=2, STARTS={9, 99}, MaxClock=4), ns_scheds=10, ns_depth=12, ns_shards=4)
     return dict(
         router=[("router-v2", dict(CHARS={"a", "b"}, MaxName=2, MaxPort=4, MaxRegs=4, ODD=True, VERSION="v2")),
                 ("router-v2-deep", dict(CHARS={"a", "b"}, MaxName=3, MaxPort=4, MaxRegs=3, ODD=False, VERSION="v2")),
@@ -49,11 +49,11 @@ def sizes(tier):
         router_procs=4, router_reps=8, router_shards=6,
         worlds=[0, 1, 2, 3],
         merkle=dict(NK=3, MaxOp=5), merkle_extra=300, merkle_shards=6,
-        ns_mc=dict(MaxClients=3, STARTS={0, 8, 98}, MaxClock=5), ns_scheds=80, ns_depth=16, ns_shards=8)
+        ns_mc=dict(MaxClients=3, STARTS={0, 9, 99}, MaxClock=5), ns_scheds=80, ns_depth=16, ns_shards=8)
 
 
 ROUTER_WITNESS = {"v2": ["RouteRefusedByPrefix", "PrefixRefusedByRoute", "PrefixRefusedByPrefix", "RouteAndPrefixCoexist", "FullSetAccepted"],
-                  "v1": ["DuplicateRefused", "TwoKeysContained", "FullSetAccepted"]}
+                  "v1": ["NonAlnumRefused", "TwoKeysContained", "FullSetAccepted"]}
 KEYS_WITNESS = ["NoSeparatorCollision", "NoSeparatorPrefixCapture", "InvalidIdCollision", "PrefixOwnsEntries", "V1V2SharedPrefix"]
 MERKLE_WITNESS = ["MemOK", "NonMemOK", "NeighbourProofCovers", "WrongValueRejected", "LeftMostNonMem", "RightMostNonMem",
                   "MemOfAbsentRejected", "NonMemOfPresentRejected", "MutationRejected"]
@@ -453,7 +453,7 @@ def run_family(tier, seed, binary=None):
         except Exception as e:  # noqa
             errors.append(e)
     # at most 4 parts at a time (each runs TLC with a few workers)
-    sem = threading.Semaphore(4)
+    sem = threading.Semaphore(6)
 
     def guarded(th_job):
         with sem:
